@@ -20,7 +20,9 @@ import (
 	"github.com/elnosh/gonuts/mint/lightning"
 	"pgregory.net/rapid"
 
+	"verif/harness/lnmodel"
 	"verif/harness/rec"
+	"verif/harness/world"
 )
 
 // The money that comes in is what the Lightning node was asked to invoice - not what the mint wrote into its quote.
@@ -219,3 +221,54 @@ func TestRegressBackendAmountWrap(t *testing.T) {
 	backendCase(t, wrapPoint+1)
 	backendCase(t, 1<<63)
 }
+
+// The same question for the repository's LND adapter (mint/lightning/lnd.go): a real mint on the adapter, the adapter
+// on imitations of lnd's rpc clients whose AddInvoice turns the sat value into msat exactly as lnd does (its own
+// lnrpc.UnmarshallAmt) before it looks at the size. For every amount a mint quote is accepted for, the invoice the
+// node wrote must be for exactly 1000 * amount msat.
+func backendCaseLND(t world.T, amount uint64) {
+	w := world.New(t, world.Config{ViaLND: true, FeeMode: lnmodel.FeeZero, CaseSeed: amount})
+	defer w.Close()
+	rec.Eval()
+	q, err := w.Mint.RequestMintQuote(nut04.PostMintQuoteBolt11Request{Amount: amount, Unit: cashu.Sat.String()})
+	big1000 := new(big.Int).Mul(new(big.Int).SetUint64(amount), big.NewInt(1000))
+	if big1000.IsUint64() && amount <= 1<<63-1 {
+		rec.Class("lnd_backend_amount_below_wrap")
+	} else {
+		rec.Class("lnd_backend_amount_times_1000_exceeds_int64_or_uint64")
+	}
+	if err != nil {
+		rec.Class("lnd_backend_quote_refused")
+		return
+	}
+	rec.NonTrivial(fmt.Sprintf("lnd_backend|%d", amount))
+	inv := w.Net.InvoiceByRequest(q.PaymentRequest)
+	if inv == nil {
+		t.Fatalf("harness: the node imitation has no invoice for the quote's payment request")
+	}
+	if new(big.Int).SetUint64(inv.AmountMsat).Cmp(big1000) != 0 {
+		backendViolate(t, "backend|lnd_invoice_amount_differs_from_quote", "mint quote for %d sat accepted, but the node's invoice is for %d msat (1000 * amount = %s)", amount, inv.AmountMsat, big1000)
+	}
+}
+
+func genBackendAmountLND() *rapid.Generator[uint64] {
+	// lnd's msat conversion wraps at multiples of 2^64 / 1000 like CLN's; in addition the adapter hands the amount
+	// over as a signed 64-bit integer
+	return rapid.OneOf(
+		genBackendAmount(),
+		rapid.Custom(func(t *rapid.T) uint64 {
+			k := rapid.Uint64Range(1, 999).Draw(t, "wraps")
+			// the smallest amounts whose product with 1000 has wrapped k times and come out small
+			x := new(big.Int).Lsh(big.NewInt(1), 64)
+			x.Mul(x, new(big.Int).SetUint64(k))
+			x.Div(x, big.NewInt(1000))
+			return x.Uint64() + rapid.Uint64Range(0, 1000).Draw(t, "delta")
+		}),
+	)
+}
+
+func propBackendAmountsLND(t *rapid.T) {
+	backendCaseLND(t, genBackendAmountLND().Draw(t, "amount"))
+}
+
+func TestBackendAmountsLND(t *testing.T) { rapid.Check(t, propBackendAmountsLND) }
